@@ -44,6 +44,7 @@ type scriptedElection struct {
 	wait   usync.WaitCloser
 	calls  []tickCall
 	failed int // failing answers given so far
+	lookups int // Leader() calls
 	limit  chan struct{}
 }
 
@@ -111,8 +112,29 @@ func (s *scriptedElection) Campaign(ctx context.Context) (cluster.ClusterRole, e
 	return cluster.RoleFollower, nil
 }
 
+// Leader: what a look at the lease shows while the scripted failure lasts - another instance's
+// address when the renewals fail because that instance holds the lease, the store's failure
+// otherwise.  Not an election call: it is not entered into the call log the clauses are judged on
+// (an implementation may look before it reports the loss).
 func (s *scriptedElection) Leader(ctx context.Context) (*cluster.RoleInfo, error) {
-	return nil, cluster.ErrNoLeader
+	s.mu.Lock()
+	failing := s.failed > 0
+	s.lookups++
+	s.mu.Unlock()
+	switch {
+	case !failing:
+		return nil, cluster.ErrNoLeader
+	case s.class == "not-leader":
+		return &cluster.RoleInfo{Address: "10.0.0.99:18001", Role: cluster.RoleLeader}, nil
+	case s.class == "no-answer":
+		if _, ok := ctx.Deadline(); ok {
+			<-ctx.Done()
+			return nil, ctx.Err()
+		}
+		return nil, fmt.Errorf("read lease store: %w", io.ErrUnexpectedEOF)
+	default:
+		return nil, s.failure(ctx)
+	}
 }
 func (s *scriptedElection) Resign(ctx context.Context) error { return nil }
 
